@@ -207,6 +207,10 @@ func childMain(spec string) {
 		walkBatchChild(c)
 		return
 	}
+	if c.Kind == "tiny" {
+		tinyChild(c)
+		return
+	}
 	if c.Kind == "run" {
 		r, ok := runRunCase(c)
 		if !ok {
@@ -976,6 +980,9 @@ func main() {
 	// (A4) long runs of ignored tokens at nesting depth 1, in children with a lowered stack limit
 	h.ignoredRuns()
 	lap("runs")
+	// (A5) tiny inputs with a stray character: hard per-call limit in a child
+	h.tinyInputs()
+	lap("tiny")
 	// (B) work families
 	for _, f := range families {
 		h.workFamily(f)
@@ -1221,6 +1228,14 @@ func (h *harness) replay(c Case, verbose bool) {
 		if !(o.Status == "ok" && !o.Res.Accepted && o.Res.DepthErr) {
 			run.Violate("property", fmt.Sprintf("%s: %d siblings then nesting %d deep: status=%s first=%q %s", c.Family, c.N, c.From, o.Status, o.Res.First, o.Tail), "", false, c)
 		}
+	case "tiny":
+		rep, ok, kind, what := h.tinyVerdict(c)
+		if verbose {
+			fmt.Printf("replay tiny: %+v %s\n", rep, what)
+		}
+		if !ok {
+			run.Violate(kind, what, "", false, c)
+		}
 	case "run":
 		o, ok, kind, what := h.runVerdict(c)
 		if verbose {
@@ -1242,7 +1257,7 @@ func (h *harness) replay(c Case, verbose bool) {
 		}
 	}
 	if verbose && h.model != nil {
-		if src, ok := sourceOf(c); ok && len(src) < 100000 && c.Kind != "run" {
+		if src, ok := sourceOf(c); ok && len(src) < 100000 && c.Kind != "run" && c.Kind != "tiny" {
 			a, err := h.askModel(src, false)
 			fmt.Printf("model: %+v %v\n", a, err)
 		}
